@@ -4,6 +4,7 @@ import (
 	"bufio"
 	"bytes"
 	"crypto/sha256"
+	"encoding/base64"
 	"encoding/hex"
 	"encoding/json"
 	"fmt"
@@ -391,7 +392,9 @@ func (b *Backend) respond(c *Conn, ex *Exchange, r *Resp) bool {
 	total := 0
 	for _, ch := range chunks {
 		var p []byte
-		if ch.Data != "" || ch.N == 0 {
+		if ch.B64 != "" {
+			p, _ = base64.StdEncoding.DecodeString(ch.B64)
+		} else if ch.Data != "" || ch.N == 0 {
 			p = []byte(ch.Data)
 		} else {
 			p = cellBytes(tag, off, ch.N)
@@ -581,7 +584,10 @@ func (b *Backend) respondHealth(c *Conn, ex *Exchange) bool {
 		return b.simple(c, ex, code, "application/json", []byte(`{"error":"scripted"}`))
 	case ph.Mode == "payload":
 		b.sim.Fault("health.payload")
-		return b.simple(c, ex, 200, "application/json", []byte(ph.Data))
+		return b.simple(c, ex, 200, "application/json", phaseData(ph))
+	case ph.Mode == "big":
+		b.sim.Fault("health.big")
+		return b.simple(c, ex, 200, "application/json", bigListing(b.cfg.Type, int(ph.Arg)))
 	}
 	return b.simple(c, ex, 200, "application/json", []byte(`{"status":"ok"}`))
 }
@@ -656,7 +662,15 @@ func (b *Backend) respondList(c *Conn, ex *Exchange) bool {
 	case ph.Mode == "payload":
 		b.sim.Fault("list.payload")
 		ex.FaultFired = "payload@list"
-		return b.simple(c, ex, 200, "application/json", []byte(ph.Data))
+		ct := "application/json"
+		if ph.Arg == 1 {
+			ct = "text/html"
+		}
+		return b.simple(c, ex, 200, ct, phaseData(ph))
+	case ph.Mode == "big":
+		b.sim.Fault("list.big")
+		ex.FaultFired = "big@list"
+		return b.simple(c, ex, 200, "application/json", bigListing(b.cfg.Type, int(ph.Arg)))
 	case strings.HasPrefix(ph.Mode, "s"):
 		var code int
 		fmt.Sscanf(ph.Mode, "s%d", &code)
@@ -763,4 +777,24 @@ func llmChunks(ex *Exchange, tag string, r *Resp) ([]Chunk, string) {
 	out = append(out, Chunk{Data: `data: {"id":"chatcmpl-` + tag + `","object":"chat.completion.chunk","created":1,"model":"m","choices":[{"index":0,"delta":{},"finish_reason":"stop"}],"usage":{"prompt_tokens":3,"completion_tokens":5,"total_tokens":8}}` + "\n\n"})
 	out = append(out, Chunk{Data: "data: [DONE]\n\n"})
 	return out, "text/event-stream"
+}
+
+func phaseData(ph *Phase) []byte {
+	if ph.B64 != "" {
+		d, _ := base64.StdEncoding.DecodeString(ph.B64)
+		return d
+	}
+	return []byte(ph.Data)
+}
+
+// bigListing renders a well-formed listing of at least n bytes.
+func bigListing(epType string, n int) []byte {
+	// long names keep the entry count (and the cost of Olla's quadratic unification) small
+	// while the document is guaranteed to exceed n bytes
+	var models []string
+	pad := strings.Repeat("x", 2000)
+	for i := 0; i*2000 < n; i++ {
+		models = append(models, fmt.Sprintf("big-model-%07d-%s", i, pad))
+	}
+	return ListingBody(epType, models)
 }
